@@ -11,8 +11,9 @@ Lemma tie_work_skeleton : skel_known Gen_registry.work_skeleton = true
   /\ Gen_registry.reply_dump_guarded = skel_reply_guarded Gen_registry.work_skeleton.
 Proof. repeat split; reflexivity. Qed.
 Lemma tie_register_skeleton : gskel_known Gen_registry.register_skeleton = true
-  /\ Gen_registry.register_validates_reply = gskel_validates Gen_registry.register_skeleton.
-Proof. split; reflexivity. Qed.
+  /\ Gen_registry.register_validates_reply = gskel_validates Gen_registry.register_skeleton
+  /\ Gen_registry.register_requires_self_equal = gskel_self_equal Gen_registry.register_skeleton.
+Proof. repeat split; reflexivity. Qed.
 Lemma tie_remove_skeleton : rskel_known Gen_registry.remove_skeleton = true
   /\ Gen_registry.remove_notifies_only_present = rskel_only_present Gen_registry.remove_skeleton.
 Proof. split; reflexivity. Qed.
@@ -31,7 +32,8 @@ Definition Fgen : facts :=
      tcp_timeout := Gen_registry.tcp_accepted_timeout;
      reply_guarded := Gen_registry.reply_dump_guarded;
      register_validates := Gen_registry.register_validates_reply;
-     tcp_closes_unanswered := Gen_registry.tcp_recv_closes_unanswered |}.
+     tcp_closes_unanswered := Gen_registry.tcp_recv_closes_unanswered;
+     register_self_equal := Gen_registry.register_requires_self_equal |}.
 
 (* ---------- text ---------- *)
 Lemma text_eqb_eq a b : text_eqb a b = true <-> a = b.
@@ -815,17 +817,17 @@ Proof.
 Qed.
 
 (* ---------- 3'. nothing a client sends ends the loop ---------- *)
-Notation classify := (Registry.classify upper lower fso enc F).
+Notation classify := (Registry.classify upper lower fso keq enc F).
 Notation work_val := (Registry.work_val upper lower fso keq enc F pruning).
 Notation deliver := (Registry.deliver enc F).
 Notation exec := (Registry.exec keq F pruning).
 
-Lemma classify_args_alive h k al e : classify_args upper fso enc F h k al <> RDie e.
+Lemma classify_args_alive h k al e : classify_args upper fso keq enc F h k al <> RDie e.
 Proof.
   unfold classify_args.
   destruct k; destruct al as [|x [|y [|z al]]]; try discriminate; try (destruct x; discriminate).
   destruct (py_iter fso x); [|discriminate]. destruct (texts_of l); [|discriminate].
-  destruct (accepted enc F h y); discriminate.
+  destruct (accepted keq enc F h y); discriminate.
 Qed.
 
 Lemma classify_die h v e : classify h v = RDie e -> lookup_guarded F = false.
@@ -840,7 +842,7 @@ Proof.
 Qed.
 
 (* a register request that reaches the table was accepted *)
-Lemma classify_register_accepted h v ns p : classify h v = RRegister ns p -> accepted enc F h p = true.
+Lemma classify_register_accepted h v ns p : classify h v = RRegister ns p -> accepted keq enc F h p = true.
 Proof.
   unfold Registry.classify.
   destruct (py_iter fso v) as [[|m [|c [|a [|x l]]]]|]; try discriminate.
@@ -851,7 +853,7 @@ Proof.
   unfold classify_args.
   destruct k; destruct al as [|x1 [|y [|z al]]]; try discriminate; try (destruct x1; discriminate).
   destruct (py_iter fso x1) as [l1|]; [|discriminate]. destruct (texts_of l1); [|discriminate].
-  destruct (accepted enc F h y) eqn:A; [|discriminate]. now intros [= _ <-].
+  destruct (accepted keq enc F h y) eqn:A; [|discriminate]. now intros [= _ <-].
 Qed.
 
 Lemma exec_dead now h r s e : exec now h r s = Dead e -> r = RDie e.
@@ -939,10 +941,10 @@ Lemma classify_query_upper h c n : find_cmd (lower c) = Some CQuery ->
 Proof. intros E. open_classify. now rewrite E. Qed.
 Lemma texts_of_strs ns : texts_of (map PStr ns) = Some ns.
 Proof. induction ns as [|x r IH]; cbn; [auto|now rewrite IH]. Qed.
-Lemma classify_register_upper h c ns p : find_cmd (lower c) = Some CRegister -> accepted enc F h p = true ->
+Lemma classify_register_upper h c ns p : find_cmd (lower c) = Some CRegister -> accepted keq enc F h p = true ->
   classify h (PTuple [PStr RPYC; PStr c; PTuple [PTuple (map PStr ns); p]]) = RRegister (map upper ns) p.
 Proof. intros E A. open_classify. rewrite E. cbn [classify_args py_iter]. now rewrite texts_of_strs, A. Qed.
-Lemma classify_register_refused h c ns p : find_cmd (lower c) = Some CRegister -> accepted enc F h p = false ->
+Lemma classify_register_refused h c ns p : find_cmd (lower c) = Some CRegister -> accepted keq enc F h p = false ->
   classify h (PTuple [PStr RPYC; PStr c; PTuple [PTuple (map PStr ns); p]]) = RNone.
 Proof. intros E A. open_classify. rewrite E. cbn [classify_args py_iter]. now rewrite texts_of_strs, A. Qed.
 Lemma classify_unregister h c p : find_cmd (lower c) = Some CUnregister ->
@@ -1028,8 +1030,10 @@ Proof.
   now rewrite E.
 Qed.
 
-Lemma accepted_answerable h p : register_validates F = true -> accepted enc F h p = true -> answerable (h, p).
-Proof. intros V. unfold accepted, answerable. now rewrite V. Qed.
+Lemma accepted_answerable h p : register_validates F = true -> accepted keq enc F h p = true -> answerable (h, p).
+Proof. intros V H. unfold accepted in H. rewrite V in H. cbn [negb orb] in H. apply andb_prop in H as [H _]. exact H. Qed.
+Lemma accepted_self_equal h p : register_self_equal F = true -> accepted keq enc F h p = true -> keq p p = true.
+Proof. intros V H. unfold accepted in H. rewrite V in H. cbn [negb orb] in H. apply andb_prop in H as [_ H]. exact H. Qed.
 
 (* ---------- 2''. the whole log: its balance is table membership, which lags behind the
    freshness-based membership of the property only by expiries not yet noticed ---------- *)
@@ -1257,7 +1261,7 @@ Lemma spurious_removed F pr : notify_only_present F = false ->
     /\ member pyval_eqb (T "FOO") (h1, PInt 999) s' = false
     /\ count pyval_eqb false (T "FOO") (h1, PInt 999) m = 1%nat.
 Proof.
-  intros HF. destruct F as [g n t rg rv tc]. cbn in HF. subst n.
+  intros HF. destruct F as [g n t rg rv tc se]. cbn in HF. subst n.
   eexists _, _, _. split; [vm_compute; reflexivity|]. vm_compute. auto.
 Qed.
 
@@ -1291,19 +1295,19 @@ Lemma reply_dies_witness F : reply_guarded F = false -> register_validates F = f
   exists s1 m1, work_val ascii_upper ascii_lower fso_id pyval_eqb (shallow 5) F 240 1000 h1 [] register_deep = Next s1 m1 (Some OKv)
   /\ work_val ascii_upper ascii_lower fso_id pyval_eqb (shallow 5) F 240 1000 h1 s1 query_deep = Dead OtherError.
 Proof.
-  intros G V. destruct F as [g n t rg rv tc]. cbn in G, V. subst rg rv.
-  eexists _, _. split; vm_compute; reflexivity.
+  intros G V. destruct F as [g n t rg rv tc se]. cbn in G, V. subst rg rv.
+  destruct se; eexists _, _; split; vm_compute; reflexivity.
 Qed.
 Lemma reply_lost_witness F : reply_guarded F = true -> register_validates F = false ->
   exists s1 m1, work_val ascii_upper ascii_lower fso_id pyval_eqb (shallow 5) F 240 1000 h1 [] register_deep = Next s1 m1 (Some OKv)
   /\ work_val ascii_upper ascii_lower fso_id pyval_eqb (shallow 5) F 240 1000 h1 s1 query_deep = Next s1 [] None.
 Proof.
-  intros G V. destruct F as [g n t rg rv tc]. cbn in G, V. subst rg rv.
-  eexists _, _. split; vm_compute; reflexivity.
+  intros G V. destruct F as [g n t rg rv tc se]. cbn in G, V. subst rg rv.
+  destruct se; eexists _, _; split; vm_compute; reflexivity.
 Qed.
 Lemma register_refused_witness F : register_validates F = true ->
   work_val ascii_upper ascii_lower fso_id pyval_eqb (shallow 5) F 240 1000 h1 [] register_deep = Next [] [] None.
-Proof. intros V. destruct F as [g n t rg rv tc]. cbn in V. subst rv. vm_compute. reflexivity. Qed.
+Proof. intros V. destruct F as [g n t rg rv tc se]. cbn in V. subst rv. destruct se; vm_compute; reflexivity. Qed.
 
 (* expiry is noticed only by the next query for that name: at 1010 the registration of 1000 is no longer
    fresh (interval 5) but still counted present, and its re-registration at 1011 notifies nothing *)
@@ -1314,3 +1318,47 @@ Lemma lazy_expiry_witness F :
   /\ member pyval_eqb (T "FOO") (h1, PInt 1) (state_after pyval_eqb F 5 lazy_history) = true
   /\ notes_of (exec pyval_eqb F 5 1011 h1 (RRegister [T "FOO"] (PInt 1)) (state_after pyval_eqb F 5 lazy_history)) = [].
 Proof. repeat split; try (cbn; lia); try exact I; vm_compute; reflexivity. Qed.
+
+(* ---------- reply size: a stock client reads MAX_DGRAM_SIZE bytes once ---------- *)
+Definition client_read (bound : Z) (bs : list byte) : list byte := firstn (Z.to_nat bound) bs.
+Lemma whole_reply_read bound bs : Z.of_nat (List.length bs) <= bound -> client_read bound bs = bs.
+Proof. intros H. unfold client_read. apply firstn_all2. lia. Qed.
+Lemma cut_reply_read bound bs : 0 <= bound < Z.of_nat (List.length bs) -> client_read bound bs <> bs.
+Proof.
+  intros H E. unfold client_read in E. apply (f_equal (@List.length byte)) in E.
+  rewrite firstn_length_le in E by lia. lia.
+Qed.
+
+(* ninety genuine servers of one name, registered at the same instant *)
+Definition many_history : list event :=
+  map (fun k => (1000, T "10.0.0.1", RRegister [T "FOO"] (PInt (20000 + Z.of_nat k)))) (seq 0 90).
+Lemma mono_const (f : nat -> req) h l : mono (map (fun k => (1000, h, f k)) l).
+Proof.
+  induction l as [|x r IH]; [exact I|]. cbn [map mono]. split; [|exact IH].
+  destruct r; cbn; [exact I|lia].
+Qed.
+Lemma big_reply_witness F :
+  mono many_history /\ clock_le many_history 1000
+  /\ match exec pyval_eqb F 240 1000 h1 (RQuery (T "FOO")) (state_after pyval_eqb F 240 many_history) with
+     | Next _ _ (Some rep) =>
+         match dump {| sp := true; maxdigits := 4300 |} rep with
+         | Ok bs => 1500 < Z.of_nat (List.length bs) /\ client_read 1500 bs <> bs
+         | _ => False
+         end
+     | _ => False
+     end.
+Proof.
+  split; [apply mono_const|]. split; [cbn; lia|].
+  vm_compute. split; [reflexivity|discriminate].
+Qed.
+
+(* ---------- a port that is not == to itself (NaN): every theorem above assumes [keq] reflexive ---------- *)
+Definition nanbits : list byte := [x7f; xf8; x00; x00; x00; x00; x00; x00].
+Definition keq_never (a b : pyval) : bool := false.
+Definition nan_history : list event :=
+  [(1002, h1, RUnregister (PFloat nanbits)); (1001, h1, RRegister [T "FOO"] (PFloat nanbits));
+   (1000, h1, RRegister [T "FOO"] (PFloat nanbits))].
+Lemma self_unequal_witness F :
+  snd (cmd_query keq_never F 240 1003 (T "FOO") (state_after keq_never F 240 nan_history))
+  = [(h1, PFloat nanbits); (h1, PFloat nanbits)].
+Proof. vm_compute. reflexivity. Qed.
